@@ -111,23 +111,18 @@ def rule_W1_W3(facts, rep):
             rep.check(tail is n, "W3", b["path"], "Ok(buf.len())-after-loop", "Ok(buf.len()) only after every piece was accepted in full", loc(b, n))
             continue
         n_short += 1
-        if v.get("k") != "local":
+        R = hir.Resolver(b["hir"])
+        c = R.res(v)
+        # offset = offset_to(buf, D), D = &piece[written..]   (each of them bound to a local or written in place)
+        ok_off = False
+        if hir.is_call(c, M + "offset_to") and hir.is_local(c["args"][0], "buf"):
+            ix = hir.peel(R.res(hir.peel(c["args"][1])))
+            ok_off = (ix.get("k") == "index" and hir.is_local(ix["e"], w.piece) and written is not None
+                      and _is_range(ix["i"], "RangeFrom", "start", written))
+        elif v.get("k") != "local" and not hir.is_call(c, M + "offset_to"):
             rep.bad("W3", b["path"], "Ok(count)-not-an-offset", f"write returns Ok({hirpp.expr(v)}): not buf.len() and not an offset into buf", loc(b, n))
             continue
-        off = v["name"]
-        # offset = offset_to(buf, D), D = &piece[written..]
-        ol = w.lets.get(off, [])
-        ok_off = False
-        if len(ol) == 1:
-            c = hir.simp(ol[0]["init"])
-            if hir.is_call(c, M + "offset_to") and hir.is_local(c["args"][0], "buf"):
-                d = hir.simp(c["args"][1])
-                dn = d["name"] if d.get("k") == "local" else None
-                dl = w.lets.get(dn, []) if dn else []
-                if len(dl) == 1:
-                    ix = hir.peel(dl[0]["init"])
-                    ok_off = (ix.get("k") == "index" and hir.is_local(ix["e"], w.piece) and written is not None
-                              and _is_range(ix["i"], "RangeFrom", "start", written))
+        off = v
         rep.check(ok_off, "W3", b["path"], "short-count-is-offset-of-unwritten-tail",
                   "the short count is offset_to(buf, &piece[written..]): where the first undelivered byte lies in the caller's buffer", loc(b, n))
         # W1: replay slice is buf[..offset], after restoring the snapshot, and the same offset is returned
@@ -146,18 +141,16 @@ def rule_W1_W3(facts, rep):
         why = "no replay of the consumed part through strip_next after rewinding"
         if len(replays) == 1 and restores and restores[-1] < replays[0][0]:
             call = [c for c in hir.walk(replays[0][1]) if hir.is_call(c, "StripBytes::strip_next")][0]
-            arg = hir.simp(call["args"][1])
-            src = arg
-            if arg.get("k") == "local" and len(w.lets.get(arg["name"], [])) == 1:
-                src = w.lets[arg["name"]][0]["init"]
-            ix = hir.peel(src)
+            ix = hir.peel(R.res(hir.peel(call["args"][1])))
             if ix.get("k") == "index" and hir.is_local(ix["e"], "buf"):
-                if _is_range(ix["i"], "RangeTo", "end", off):
+                r_ = hir.simp(ix["i"])
+                endx = r_["fields"][0]["e"] if (r_.get("k") == "struct" and hir.last_seg(r_["path"].get("path")) == "RangeTo" and len(r_["fields"]) == 1) else None
+                if endx is not None and R.same(endx, off):
                     ok_replay = True
                     why = "replays buf[..offset] from the snapshot and returns the same offset"
                 else:
                     why = (f"after rewinding, the stripper is re-fed `{hirpp.expr(ix)}` — it must be re-fed exactly the part "
-                           f"reported as consumed, buf[..{off}], or the carried state no longer matches the returned count")
+                           f"reported as consumed, buf[..{hirpp.expr(off)}], or the carried state no longer matches the returned count")
             drained = hir.is_call(hir.simp(replays[0][1]), "Iterator::last", "Iterator::count", "Iterator::for_each")
             if ok_replay and not drained:
                 ok_replay, why = False, "the replay iterator is never driven (strip_next is lazy)"
@@ -166,13 +159,14 @@ def rule_W1_W3(facts, rep):
         frames = [fr for (x, fr) in hir.visit_with_conds(b["hir"], lambda x: x is ret)]
         g = False
         for f in frames[0] if frames else []:
-            if f.get("kind") == "if" and f["val"]:
+            if f.get("kind") == "if":
                 c = hir.simp(f["expr"])
-                if c.get("k") == "bin" and c["op"] == "Ne":
-                    names = {hir.local_name(c["l"]), hir.local_name(c["r"])}
-                    poss = [x for x in names if x != written]
-                    if written in names and len(poss) == 1 and len(w.lets.get(poss[0], [])) == 1:
-                        pi = hir.simp(w.lets[poss[0]][0]["init"])
+                if c.get("k") == "bin" and ((c["op"] == "Ne" and f["val"]) or (c["op"] == "Eq" and not f["val"])):
+                    sides = [hir.simp(c["l"]), hir.simp(c["r"])]
+                    wr = [x for x in sides if hir.local_name(x) == written]
+                    ot = [x for x in sides if hir.local_name(x) != written]
+                    if len(wr) == 1 and len(ot) == 1:
+                        pi = R.res(ot[0])
                         g = hir.is_call(pi, "len") and hir.is_local(pi["args"][0], w.piece)
         rep.check(g, "W1", b["path"], "short-write-test", "the short-write branch is taken exactly when piece.len() != written", loc(b, ret))
     rep.check(n_short == 1, "W3", b["path"], "one-short-count", f"{n_short} partial-count results", loc(b))
@@ -197,16 +191,106 @@ def rule_W1_W3(facts, rep):
     # write_vectored forwards exactly one of the caller's buffers to write
     v = facts.body(CRATE, "<anstream::strip::StripStream<S> as std::io::Write>::write_vectored")
     rep.fn(v["path"])
-    st = hir.stmts_of(v["hir"])
-    ok = False
-    if len(st) == 2 and st[0].get("k") == "let":
-        chain = hir.simp(st[0]["init"])
-        finds = [n for n in hir.walk(chain) if hir.is_call(n, "Iterator::find")]
-        last = hir.simp(st[1])
-        ok = (len(finds) == 1 and hir.is_call(hir.simp(finds[0]["args"][0]), "iter") and hir.is_local(hir.simp(finds[0]["args"][0])["args"][0], "bufs")
-              and hir.is_call(last, "<anstream::strip::StripStream<S> as std::io::Write>::write")
-              and hir.is_local(last["args"][0], "self") and hir.is_local(last["args"][1], st[0]["pat"].get("name")))
-    rep.check(ok, "W3", v["path"], "forwards-one-buffer", "write_vectored = self.write(first non-empty buffer): the count refers to one caller buffer", loc(v))
+    ok, why = _forwards_one_buffer(v)
+    rep.check(ok, "W3", v["path"], "forwards-one-buffer",
+              f"write_vectored = self.write(first non-empty buffer, or an empty slice): the count refers to a prefix of the caller's data; {why}", loc(v))
+
+
+def _result_nodes(body):
+    """Expressions whose value is the function's result: the tail (through blocks / if / match) and `return` operands."""
+    out = []
+
+    def tail(e):
+        e = hir.simp(e)
+        if not isinstance(e, dict):
+            return
+        k = e.get("k")
+        if k == "block":
+            if "expr" in e:
+                tail(e["expr"])
+        elif k == "if":
+            tail(e["t"])
+            if "e" in e:
+                tail(e["e"])
+        elif k == "match" and e.get("src") not in ("ForLoopDesugar", "TryDesugar"):
+            for a in e["arms"]:
+                tail(a["body"])
+        else:
+            out.append(e)
+    tail(body)
+    for n in hir.walk(body):
+        if n.get("k") == "ret" and "e" in n:
+            tail(n["e"])
+    return out
+
+
+def _nonempty_test(c, name):
+    c = hir.simp(c)
+    if c.get("k") == "un" and c.get("op") == "Not":
+        i = hir.simp(c["e"])
+        return hir.is_call(i, "is_empty") and hir.is_local(hir.peel(i["args"][0]), name)
+    if c.get("k") == "bin" and c["op"] in ("Ne", "Gt"):
+        l = hir.simp(c["l"])
+        return hir.is_call(l, "len") and hir.is_local(hir.peel(l["args"][0]), name) and hir.lit_val(c["r"]) == 0
+    return False
+
+
+def _forwards_one_buffer(v):
+    body = v["hir"]
+    R = hir.Resolver(body)
+    writes = [n for n in hir.walk(body) if hir.is_call(n, "<anstream::strip::StripStream<S> as std::io::Write>::write")]
+    if not writes:
+        return False, "no self.write call"
+    results = _result_nodes(body)
+    for w_ in writes:
+        if not any(w_ is r for r in results):
+            return False, f"`{hirpp.expr(w_)[:50]}` is not returned as is (a second write could follow)"
+        if not hir.is_local(w_["args"][0], "self"):
+            return False, "write on something else than self"
+    others = [n for n in hir.walk(body) if n.get("k") == "call" and hir.callee_decl(n).startswith("std::io::Write::") and not any(n is w_ for w_ in writes)]
+    if others:
+        return False, f"other writer calls {[hir.callee(o) for o in others]}"
+    loops = [l for l in (hir.for_loop(n) for n in hir.walk(body) if n.get("k") == "match" and n.get("src") == "ForLoopDesugar") if l]
+    kinds = []
+    for w_ in writes:
+        a = hir.peel(R.res(hir.peel(w_["args"][1])))
+        # an empty slice
+        arr = [x for x in hir.walk(a) if x.get("k") == "array"]
+        if (a.get("k") == "array" and not a["es"]) or (a.get("k") == "index" and arr and not arr[0]["es"]):
+            kinds.append("empty")
+            continue
+        # the loop variable of `for buf in bufs` under `if <buf is not empty>`
+        hit = False
+        for pat, it, lb in loops:
+            src = hir.peel(it)
+            if hir.is_call(src, "iter"):
+                src = hir.peel(src["args"][0])
+            if pat.get("k") == "pbind" and hir.is_local(src, "bufs") and a.get("k") == "local" and a.get("id") == pat.get("id"):
+                st = [hir.simp(x) for x in hir.stmts_of(lb)]
+                if len(st) == 1 and st[0].get("k") == "if" and "e" not in st[0] and _nonempty_test(st[0]["c"], pat["name"]) and \
+                        any(w_ is x for x in hir.walk(st[0]["t"])):
+                    hit = True
+        if hit:
+            kinds.append("first-non-empty")
+            continue
+        # bufs.iter().find(|b| !b.is_empty()).map(|b| &**b).unwrap_or(<empty>)
+        chain = a
+        names = []
+        finds = []
+        while chain.get("k") == "call" and chain.get("args"):
+            names.append(hir.callee(chain).split("::")[-1])
+            if hir.is_call(chain, "Iterator::find"):
+                finds.append(chain)
+            chain = hir.peel(chain["args"][0])
+        if hir.is_local(chain, "bufs") and len(finds) == 1 and set(names) <= {"unwrap_or", "map_or", "map", "find", "iter", "unwrap_or_default", "copied", "as_deref"}:
+            clo = hir.simp(finds[0]["args"][1])
+            if clo.get("k") == "closure" and _nonempty_test(clo["body"], clo["params"][0].get("name")):
+                kinds.append("first-non-empty")
+                continue
+        return False, f"argument `{hirpp.expr(a)[:60]}` is neither the first non-empty element of bufs nor an empty slice"
+    if "first-non-empty" not in kinds:
+        return False, "no path forwards a caller buffer"
+    return True, f"{kinds}"
 
 
 def rule_W2(facts, rep):
@@ -292,64 +376,76 @@ def rule_W4(facts, rep):
 
 
 def rule_adapter(facts, rep, crate, mod):
-    """fmt::Adapter keeps the io::Error across the fmt::Write boundary."""
+    """fmt::Adapter keeps the io::Error across the fmt::Write boundary — decided case by case with the abstract evaluator, so
+    `match`, `map_err`, `is_ok()` + early return and `if let` spellings are all the same function:
+      write_str(s): calls (self.writer)(s.as_bytes()) once; Ok -> Ok(()), nothing stored; Err(e) -> self.error = Err(e), Err(fmt::Error)
+      write_fmt(args): fmt::write Ok -> Ok(()); Err with a saved error -> that error; Err without -> a new io::Error (never Ok)."""
+    import abseval
     ws = facts.body(crate, f"<{mod}Adapter<W> as core::fmt::Write>::write_str")
     rep.fn(ws["path"])
-    m = hir.simp(ws["hir"])
-    while m.get("k") == "block":
-        m = hir.simp(hir.stmts_of(m)[0])
-    ok_call = False
-    if m.get("k") == "match":
-        sc = hir.simp(m["scrut"])
-        if sc.get("k") == "call" and "f" in sc:
-            f = hir.peel(sc["f"])
-            a = hir.simp(sc["args"][0])
-            ok_call = (f.get("k") == "field" and f["name"] == "writer" and hir.is_local(f["e"], "self")
-                       and hir.is_call(a, "as_bytes") and hir.is_local(a["args"][0], ws["params"][1]["name"]))
-    rep.check(ok_call, "W4", ws["path"], "write_str:calls-writer-with-the-bytes", "(self.writer)(s.as_bytes())", loc(ws))
-    ok_err = ok_ok = False
-    if m.get("k") == "match":
-        for a in m["arms"]:
-            seg = hir.last_seg(hir.pat_path(a["pat"]))
-            st = hir.stmts_of(a["body"])
-            if seg == "Err":
-                p = a["pat"]["pats"][0] if a["pat"].get("k") == "pts" and a["pat"]["pats"] else {}
-                if p.get("k") == "pbind" and len(st) == 2:
-                    s0, s1 = hir.simp(st[0]), hir.simp(st[1])
-                    stores = (s0.get("k") == "assign" and hir.place_str(s0["l"]) == "self.error" and is_err_ctor(hir.simp(s0["r"]))
-                              and hir.is_local(hir.simp(s0["r"])["args"][0], p["name"]))
-                    ok_err = stores and is_err_ctor(s1)
-            if seg == "Ok":
-                ok_ok = len(st) == 1 and is_ok_ctor(hir.simp(st[0]))
+    sname = ws["params"][1]["name"]
+    res = {}
+    shape_err = None
+    for case in ("ok", "err"):
+        calls = []
+
+        def writer(args, case=case, calls=calls):
+            calls.append(args)
+            return ("ok", ("unit",)) if case == "ok" else ("err", ("sym", "e"))
+        ev = abseval.Evaluator(facts, crate, {"call:self.writer": writer, "core::str::<impl str>::as_bytes": lambda a: ("bytes-of", a[0])})
+        env = abseval.Env()
+        env[sname] = ("sym", "s")
+        env["self.error"] = ("ok", ("unit",))
+        try:
+            try:
+                r = ev.ev(ws["hir"], env)
+            except abseval.Return as rt:
+                r = rt.v
+        except Unrecognised as e:
+            shape_err = str(e)
+            break
+        res[case] = (r, calls, list(ev.stores))
+    if shape_err:
+        raise Unrecognised(f"Adapter::write_str: {shape_err}")
+    ok_call = all(len(c) == 1 and c[0] == [("bytes-of", ("sym", "s"))] for _, c, _ in res.values())
+    rep.check(ok_call, "W4", ws["path"], "write_str:calls-writer-with-the-bytes", f"(self.writer)(s.as_bytes()) exactly once: {[c for _, c, _ in res.values()]}", loc(ws))
+    r_err, _, st_err = res["err"]
+    ok_err = r_err[0] == "err" and st_err == [("self.error", ("err", ("sym", "e")))]
     rep.check(ok_err, "W4", ws["path"], "write_str:saves-io-error",
-              "on Err(e): self.error = Err(e) is stored before fmt::Error is returned (the io::Error is not discarded)", loc(ws))
-    rep.check(ok_ok, "W4", ws["path"], "write_str:Ok-is-Ok", "", loc(ws))
+              f"on Err(e): self.error = Err(e) is stored and fmt::Error is returned (the io::Error is not discarded); result {r_err}, stores {st_err}", loc(ws))
+    r_ok, _, st_ok = res["ok"]
+    rep.check(r_ok == ("ok", ("unit",)) and not st_ok, "W4", ws["path"], "write_str:Ok-is-Ok", f"{r_ok} {st_ok}", loc(ws))
     wf = facts.body(crate, f"{mod}Adapter::<W>::write_fmt")
     rep.fn(wf["path"])
-    m = hir.simp(wf["hir"])
-    while m.get("k") == "block":
-        m = hir.simp(hir.stmts_of(m)[0])
-    ok = False
-    why = "shape"
-    if m.get("k") == "match" and hir.is_call(hir.simp(m["scrut"]), "core::fmt::write"):
-        for a in m["arms"]:
-            if hir.last_seg(hir.pat_path(a["pat"])) == "Err":
-                paths = hir.enumerate_paths(a["body"])
-                ok = True
-                for p in paths:
-                    conds = [(hirpp.expr(t[1]), t[2]) for t in p.trace if t[0] == "cond"]
-                    stored = any("is_err" in c and "$self.error" in c and v for c, v in conds)
-                    v = hir.simp(p.value) if p.value is not None else {}
-                    if stored:
-                        if hir.place_str(v) != "self.error":
-                            ok, why = False, "when an io::Error was saved it is not what write_fmt returns"
-                    else:
-                        if not is_err_ctor(v):
-                            ok, why = False, "a formatter failure is turned into success"
-                if not any(any("is_err" in c for c, _ in [(hirpp.expr(t[1]), t[2]) for t in p.trace if t[0] == "cond"]) for p in paths):
-                    ok, why = False, "the saved io::Error is never consulted"
+    ok, why = True, ""
+    n_cases = 0
+    for fmt_res in ("ok", "err"):
+        for saved in ("ok", "err"):
+            if fmt_res == "ok" and saved == "err":
+                continue      # write_str returns Err whenever it saves an error, so fmt::write cannot report Ok then
+            n_cases += 1
+            ev = abseval.Evaluator(facts, crate, {
+                "core::fmt::write": ("ok", ("unit",)) if fmt_res == "ok" else ("err", ("enum", "core::fmt::Error")),
+                "std::io::error::Error::new": ("sym", "new-io-error"), "std::io::Error::new": ("sym", "new-io-error"),
+                "std::io::error::Error::other": ("sym", "new-io-error")})
+            env = abseval.Env()
+            for p in wf["params"]:
+                env[p["name"]] = ("sym", p["name"])
+            env["self.error"] = ("ok", ("unit",)) if saved == "ok" else ("err", ("sym", "saved"))
+            try:
+                try:
+                    r = ev.ev(wf["hir"], env)
+                except abseval.Return as rt:
+                    r = rt.v
+            except Unrecognised as e:
+                raise Unrecognised(f"Adapter::write_fmt: {e}")
+            want = ("ok", ("unit",)) if fmt_res == "ok" else (("err", ("sym", "saved")) if saved == "err" else ("err", ("sym", "new-io-error")))
+            if r != want:
+                ok = False
+                why = (f"fmt::write {fmt_res}, saved error {saved}: returns {r}, expected {want}" +
+                       (" — a formatter failure is turned into success" if r[0] == "ok" and fmt_res == "err" else ""))
     rep.check(ok, "W4", wf["path"], "write_fmt:returns-saved-error",
-              f"Adapter::write_fmt returns the saved inner error when fmt::write fails ({why})", loc(wf))
+              f"Adapter::write_fmt returns the saved inner error when fmt::write fails ({why or str(n_cases) + ' cases'})", loc(wf))
     nw = facts.body(crate, f"{mod}Adapter::<W>::new")
     s = [n for n in hir.walk(nw["hir"]) if n.get("k") == "struct"]
     ok = len(s) == 1 and is_ok_ctor(hir.simp({x["name"]: x["e"] for x in s[0]["fields"]}.get("error", {})))
